@@ -148,6 +148,29 @@ def St.getGrad (s : St) (idx : Nat) : Except Exc Int :=
   else if idx + 1 > s.grad.length then .error .gradient_out_of_range
   else .ok (s.grad.getD idx 0)
 
+/-- one past the last gradient index touched by a range of `n` elements that starts at `start` and advances by `ss`:
+    the `end_plus_one` argument of the range forms of `get_gradients` / `set_gradients` (what `Array::get_gradient`
+    passes for a view with element separation `ss`) -/
+def rangeEnd (start n ss : Nat) : Nat := if n = 0 then start else start + (n - 1) * ss + 1
+
+/-- `Stack::get_gradients(start, end_plus_one, out, src_stride, 1)` (and the contiguous form, `ss = 1`): the whole SPAN
+    must lie inside the vector that was initialised, not just the number of elements -/
+def St.getRange (s : St) (start n ss : Nat) : Except Exc (List Int) :=
+  if !s.gradInit then .error .gradients_not_initialized
+  else if rangeEnd start n ss > s.grad.length then .error .gradient_out_of_range
+  else .ok ((List.range n).map fun j => s.grad.getD (start + j * ss) 0)
+
+/-- `for (i = start, j = 0; i < end_plus_one; i++, j++) gradient_[i] = gradient[j]` -/
+def writeFrom : List Int → Nat → List Int → List Int
+  | g, _, [] => g
+  | g, i, v :: vs => writeFrom (g.set i v) (i + 1) vs
+
+/-- `Stack::set_gradients(start, start + n, values)`: initialises first, like the single-element form -/
+def St.setRange (s : St) (start : Nat) (vs : List Int) : St × Option Exc :=
+  let s := if s.gradInit then s else s.initGradients
+  if start + vs.length > s.grad.length then (s, some .gradient_out_of_range)
+  else ({ s with grad := writeFrom s.grad start vs }, none)
+
 /-- `Stack::compute_tangent_linear()`: objects registered since the working vector was initialised may have
     statements whose indices lie beyond it, so the sweep is refused (`gradient_out_of_range`) as soon as
     `max_gradient_` exceeds the initialised length -/
